@@ -38,7 +38,7 @@ def programs(rnd, n_deep):
     dy = ["+", "-", "*", "%", "^", "=", "<", ">", "&", "|", ":%", "!"]
     out = []
     for op in dy:
-        for x, y in ((a, b), (a, lit(I(2))), (lit(I(2)), a), (b, a), (a, lit(R(1, 2)))):
+        for x, y in ((a, b), (a, lit(I(2))), (lit(I(2)), a), (b, a), (a, lit(R(1, 2))), (a, lit(R(2, 1)))):      # 2 and 2.0: same value, two kinds
             out.append({"k": "dy", "op": op, "a": x, "b": y})
     for op in ("-", "_", "#", "|", "*"):                # negate, floor, size, reverse, first
         out.append({"k": "mo", "op": op, "a": a})
@@ -256,7 +256,7 @@ def run(tier, seed):
     ev.cov["cases_inside_kgeval_domain"] = n_defined
     ev.cov["one_backend_fails_outside_compilable_grammar_not_judged"] = n_onesided
     ev.cov["mismatching_cases"] = sum(len(v) for v in clusters.values())
-    ev.cov["rule"] = ("every program of the depth-1 families (12 dyads x 5 operand shapes, 6 monads, 12 reductions/scans, take/drop/rotate/"
+    ev.cov["rule"] = ("every program of the depth-1 families (12 dyads x 6 operand shapes, 6 monads, 12 reductions/scans, take/drop/rotate/"
                       "index/join, each), programs that read an operand twice, and seeded deeper programs x 12 binding classes (integer, "
                       "negative, real scalars; integer/real vectors and matrices; vector with scalar), each evaluated by one numpy and one "
                       "torch interpreter; non-trivial = both backends return")
